@@ -119,79 +119,214 @@ const zz = "zzq" // the name no program ever defines
 type danglingTemplate struct {
 	id   string // kind of reference
 	ctx  string
-	call Call
+	call Call   // the call that holds the dangling name
+	pre  []Call // sibling calls placed before / after it in the hole: valid entries of the
+	post []Call // same list (other headers, other view attributes, ...)
+	// strict: acceptance alone is a violation even with companion calls around, because
+	// nothing a sibling call can do removes the reference (the construct appends to a list:
+	// requirements, required names, headers, params, view attributes, routes, error responses).
+	// Templates whose construct a later sibling can replace (Body, MapParams, Tag, Message,
+	// Metadata, Trailers, gRPC Headers, Result, a redefined attribute) are strict only when
+	// they are alone; with companions the accepted design must still mention the name.
+	strict bool
+}
+
+func (t danglingTemplate) hole() []Call {
+	out := append([]Call{}, t.pre...)
+	out = append(out, t.call)
+	return append(out, t.post...)
+}
+
+// nameLists: the dangling name in every position among otherwise valid names.
+func nameLists(valid ...string) [][]string {
+	a, b := valid[0], valid[1]
+	return [][]string{{zz, a}, {a, zz}, {a, zz, b}, {a, b, zz}, {zz, a, b}}
+}
+
+func strArgs(names []string) []Arg {
+	out := make([]Arg, len(names))
+	for i, n := range names {
+		out[i] = S(n)
+	}
+	return out
 }
 
 func danglingTemplates() []danglingTemplate {
 	fz := func(calls ...Call) Arg { return F(calls...) }
 	az := C("Attribute", S(zz))
+	one := func(id, ctx string, c Call) danglingTemplate { return danglingTemplate{id: id, ctx: ctx, call: c} }
 	t := []danglingTemplate{
 		// requirements
-		{"required-attribute", "type", C("Required", S(zz))},
-		{"required-attribute", "payload", C("Required", S(zz))},
-		{"required-attribute", "result", C("Required", S(zz))},
-		{"required-attribute", "rt-attributes", C("Required", S(zz))},
-		{"required-attribute", "resulttype", C("Required", S(zz))},
-		{"required-attribute", "http-headers", C("Required", S(zz))},
-		{"required-attribute", "http-params", C("Required", S(zz))},
-		{"required-attribute", "http-body", C("Required", S(zz))},
-		{"required-attribute", "grpc-message", C("Required", S(zz))},
-		{"required-attribute", "grpc-metadata", C("Required", S(zz))},
+		one("required-attribute", "type", C("Required", S(zz))),
+		one("required-attribute", "payload", C("Required", S(zz))),
+		one("required-attribute", "result", C("Required", S(zz))),
+		one("required-attribute", "rt-attributes", C("Required", S(zz))),
+		one("required-attribute", "resulttype", C("Required", S(zz))),
+		one("required-attribute", "http-headers", C("Required", S(zz))),
+		one("required-attribute", "http-params", C("Required", S(zz))),
+		one("required-attribute", "http-body", C("Required", S(zz))),
+		one("required-attribute", "grpc-message", C("Required", S(zz))),
+		one("required-attribute", "grpc-metadata", C("Required", S(zz))),
 		// HTTP request mappings (payload is an object without zz)
-		{"http-request-header", "http-endpoint", C("Header", S(zz))},
-		{"http-request-param", "http-endpoint", C("Param", S(zz))},
-		{"http-request-cookie", "http-endpoint", C("Cookie", S(zz))},
-		{"http-request-body-attribute", "http-endpoint", C("Body", S(zz))},
-		{"http-request-body-field", "http-endpoint", C("Body", fz(az))},
-		{"http-route-param", "http-endpoint", C("GET", S("/r/{"+zz+"}"))},
-		{"http-map-params", "http-endpoint", C("MapParams", S(zz))},
-		{"http-request-header", "http-endpoint", C("Headers", fz(C("Header", S(zz))))},
-		{"http-request-param", "http-endpoint", C("Params", fz(C("Param", S(zz))))},
-		{"http-request-header", "http-headers", C("Header", S(zz))},
-		{"http-request-param", "http-params", C("Param", S(zz))},
-		{"http-request-body-field", "http-body", az},
+		one("http-request-header", "http-endpoint", C("Header", S(zz))),
+		one("http-request-param", "http-endpoint", C("Param", S(zz))),
+		one("http-request-cookie", "http-endpoint", C("Cookie", S(zz))),
+		one("http-request-body-attribute", "http-endpoint", C("Body", S(zz))),
+		one("http-request-body-field", "http-endpoint", C("Body", fz(az))),
+		one("http-route-param", "http-endpoint", C("GET", S("/r/{"+zz+"}"))),
+		one("http-map-params", "http-endpoint", C("MapParams", S(zz))),
+		one("http-request-header", "http-endpoint", C("Headers", fz(C("Header", S(zz))))),
+		one("http-request-param", "http-endpoint", C("Params", fz(C("Param", S(zz))))),
+		one("http-request-header", "http-headers", C("Header", S(zz))),
+		one("http-request-param", "http-params", C("Param", S(zz))),
+		one("http-request-body-field", "http-body", az),
 		// HTTP response mappings (result RT has attributes a, b only)
-		{"http-response-header", "http-response", C("Header", S(zz))},
-		{"http-response-cookie", "http-response", C("Cookie", S(zz))},
-		{"http-response-body-attribute", "http-response", C("Body", S(zz))},
-		{"http-response-body-field", "http-response", C("Body", fz(az))},
-		{"http-response-tag", "http-response", C("Tag", S(zz), S("v"))},
-		{"http-response-header", "http-response", C("Headers", fz(C("Header", S(zz))))},
-		{"http-response-header", "http-endpoint", C("Response", I(200), fz(C("Header", S(zz))))},
-		{"http-response-body-attribute", "http-endpoint", C("Response", I(200), fz(C("Body", S(zz))))},
+		one("http-response-header", "http-response", C("Header", S(zz))),
+		one("http-response-cookie", "http-response", C("Cookie", S(zz))),
+		one("http-response-body-attribute", "http-response", C("Body", S(zz))),
+		one("http-response-body-field", "http-response", C("Body", fz(az))),
+		one("http-response-tag", "http-response", C("Tag", S(zz), S("v"))),
+		one("http-response-header", "http-response", C("Headers", fz(C("Header", S(zz))))),
+		one("http-response-header", "http-endpoint", C("Response", I(200), fz(C("Header", S(zz))))),
+		one("http-response-body-attribute", "http-endpoint", C("Response", I(200), fz(C("Body", S(zz))))),
 		// HTTP error responses (error a has the built-in error type)
-		{"http-error-response-header", "http-error-response", C("Header", S(zz))},
-		{"http-error-response-body-attribute", "http-error-response", C("Body", S(zz))},
-		{"http-error-response-undefined-error", "http-endpoint", C("Response", S(zz), I(400))},
-		{"http-error-response-undefined-error", "service-http", C("Response", S(zz), I(400))},
-		{"http-error-response-undefined-error", "api-http", C("Response", S(zz), I(400))},
+		one("http-error-response-header", "http-error-response", C("Header", S(zz))),
+		one("http-error-response-body-attribute", "http-error-response", C("Body", S(zz))),
+		one("http-error-response-undefined-error", "http-endpoint", C("Response", S(zz), I(400))),
+		one("http-error-response-undefined-error", "service-http", C("Response", S(zz), I(400))),
+		one("http-error-response-undefined-error", "api-http", C("Response", S(zz), I(400))),
 		// security requirements
-		{"security-scheme", "method", C("Security", S(zz))},
-		{"security-scheme", "method+http", C("Security", S(zz))},
-		{"security-scheme", "service", C("Security", S(zz))},
-		{"security-scheme", "api", C("Security", S(zz))},
+		one("security-scheme", "method", C("Security", S(zz))),
+		one("security-scheme", "method+http", C("Security", S(zz))),
+		one("security-scheme", "service", C("Security", S(zz))),
+		one("security-scheme", "api", C("Security", S(zz))),
 		// views
-		{"view-attribute", "view", az},
-		{"view-attribute", "resulttype", C("View", S("v2"), fz(az))},
-		{"attribute-view", "attr-rt", C("View", S(zz))},
-		{"result-view", "method+http", C("Result", UT("RT"), fz(C("View", S(zz))))},
-		{"attribute-view", "type", C("Attribute", S("f"), UT("RT"), fz(C("View", S(zz))))},
-		{"collection-view", "type", C("Attribute", S("f"), CallArg(C("CollectionOf", UT("RT"), fz(C("View", S(zz))))))},
+		one("view-attribute", "view", az),
+		one("view-attribute", "resulttype", C("View", S("v2"), fz(az))),
+		one("attribute-view", "attr-rt", C("View", S(zz))),
+		one("result-view", "method+http", C("Result", UT("RT"), fz(C("View", S(zz))))),
+		one("attribute-view", "type", C("Attribute", S("f"), UT("RT"), fz(C("View", S(zz))))),
+		one("collection-view", "type", C("Attribute", S("f"), CallArg(C("CollectionOf", UT("RT"), fz(C("View", S(zz))))))),
 		// gRPC mappings
-		{"grpc-request-metadata", "grpc-endpoint", C("Metadata", fz(az))},
-		{"grpc-request-message", "grpc-endpoint", C("Message", fz(az))},
-		{"grpc-request-metadata", "grpc-metadata", az},
-		{"grpc-request-message", "grpc-message", az},
-		{"grpc-response-header", "grpc-response", C("Headers", fz(az))},
-		{"grpc-response-trailer", "grpc-response", C("Trailers", fz(az))},
-		{"grpc-response-message", "grpc-response", C("Message", fz(az))},
-		{"grpc-response-header", "grpc-endpoint", C("Response", I(0), fz(C("Headers", fz(az))))},
-		{"grpc-error-response-undefined-error", "grpc-endpoint", C("Response", S(zz), I(5))},
-		{"grpc-error-response-undefined-error", "service-grpc", C("Response", S(zz), I(5))},
-		{"grpc-error-response-undefined-error", "api-grpc", C("Response", S(zz), I(5))},
+		one("grpc-request-metadata", "grpc-endpoint", C("Metadata", fz(az))),
+		one("grpc-request-message", "grpc-endpoint", C("Message", fz(az))),
+		one("grpc-request-metadata", "grpc-metadata", az),
+		one("grpc-request-message", "grpc-message", az),
+		one("grpc-response-header", "grpc-response", C("Headers", fz(az))),
+		one("grpc-response-trailer", "grpc-response", C("Trailers", fz(az))),
+		one("grpc-response-message", "grpc-response", C("Message", fz(az))),
+		one("grpc-response-header", "grpc-endpoint", C("Response", I(0), fz(C("Headers", fz(az))))),
+		one("grpc-error-response-undefined-error", "grpc-endpoint", C("Response", S(zz), I(5))),
+		one("grpc-error-response-undefined-error", "service-grpc", C("Response", S(zz), I(5))),
+		one("grpc-error-response-undefined-error", "api-grpc", C("Response", S(zz), I(5))),
+	}
+
+	// ---- the dangling name in every position of a list of otherwise valid names ----
+
+	// Security(name, name, ...): schemes a (basic) and k (API key) exist in the +auth contexts
+	// (whose method payload carries the credentials both schemes need); in the other contexts
+	// only a exists, the valid entries are then a twice.
+	for _, ctx := range []string{"method+auth", "service+auth", "api+auth"} {
+		t = append(t, one("security-scheme", ctx, C("Security", S(zz))))
+		for _, names := range nameLists("a", "k") {
+			t = append(t, one("security-scheme-in-list", ctx, C("Security", strArgs(names)...)))
+		}
+		// an existing scheme given by value, then the dangling name; and with a trailing DSL
+		t = append(t, one("security-scheme-in-list", ctx, C("Security", Arg{K: "scheme", S: "a"}, S(zz))))
+		t = append(t, one("security-scheme-in-list", ctx, C("Security", S("a"), S(zz), F())))
+	}
+	for _, ctx := range []string{"method", "method+http", "service", "api"} {
+		for _, names := range [][]string{{zz, "a"}, {"a", zz}, {"a", zz, "a"}} {
+			t = append(t, one("security-scheme-in-list", ctx, C("Security", strArgs(names)...)))
+		}
+	}
+	// Required(name, name, ...): attributes a and b exist
+	for _, ctx := range []string{"type", "payload", "result", "rt-attributes", "resulttype"} {
+		for _, names := range nameLists("a", "b") {
+			t = append(t, one("required-attribute-in-list", ctx, C("Required", strArgs(names)...)))
+		}
+	}
+	for _, names := range nameLists("a", "b") {
+		t = append(t,
+			danglingTemplate{id: "required-attribute-in-list", ctx: "http-headers", call: C("Required", strArgs(names)...),
+				pre: []Call{C("Header", S("a")), C("Header", S("b"))}},
+			danglingTemplate{id: "required-attribute-in-list", ctx: "http-params", call: C("Required", strArgs(names)...),
+				pre: []Call{C("Param", S("a")), C("Param", S("b"))}},
+			danglingTemplate{id: "required-attribute-in-list", ctx: "grpc-message", call: C("Required", strArgs(names)...),
+				pre: []Call{C("Attribute", S("b"))}},
+			danglingTemplate{id: "required-attribute-in-list", ctx: "grpc-metadata", call: C("Required", strArgs(names)...),
+				pre: []Call{C("Attribute", S("b"))}},
+		)
+	}
+	// lists made of one call per entry: the dangling entry first, in the middle, last
+	type listCtx struct {
+		id, ctx, fn string
+		a, b        Call // valid entries
+	}
+	ent := func(fn, name string) Call { return C(fn, S(name)) }
+	for _, l := range []listCtx{
+		{"http-request-header", "http-endpoint", "Header", ent("Header", "a"), ent("Header", "b")},
+		{"http-request-param", "http-endpoint", "Param", ent("Param", "a"), ent("Param", "b")},
+		{"http-request-cookie", "http-endpoint", "Cookie", ent("Cookie", "a"), ent("Cookie", "b")},
+		{"http-request-header", "http-headers", "Header", ent("Header", "a"), ent("Header", "b")},
+		{"http-request-param", "http-params", "Param", ent("Param", "a"), ent("Param", "b")},
+		{"http-request-body-field", "http-body", "Attribute", ent("Attribute", "b"), ent("Attribute", "b")},
+		{"http-response-header", "http-response", "Header", ent("Header", "a"), ent("Header", "b")},
+		{"http-response-cookie", "http-response", "Cookie", ent("Cookie", "a"), ent("Cookie", "b")},
+		{"view-attribute", "view", "Attribute", ent("Attribute", "b"), ent("Attribute", "b")},
+		{"grpc-request-message", "grpc-message", "Attribute", ent("Attribute", "b"), ent("Attribute", "b")},
+		{"grpc-request-metadata", "grpc-metadata", "Attribute", ent("Attribute", "b"), ent("Attribute", "b")},
+	} {
+		d := ent(l.fn, zz)
+		t = append(t,
+			danglingTemplate{id: l.id + "-in-list", ctx: l.ctx, call: d, post: []Call{l.a}},
+			danglingTemplate{id: l.id + "-in-list", ctx: l.ctx, call: d, pre: []Call{l.a}},
+			danglingTemplate{id: l.id + "-in-list", ctx: l.ctx, call: d, pre: []Call{l.a}, post: []Call{l.b}},
+		)
+	}
+	// lists inside the body of one call
+	type bodyCtx struct {
+		id, ctx string
+		mk      func(body ...Call) Call
+		entry   string // function of the entries
+	}
+	for _, l := range []bodyCtx{
+		{"http-request-header", "http-endpoint", func(b ...Call) Call { return C("Headers", F(b...)) }, "Header"},
+		{"http-request-param", "http-endpoint", func(b ...Call) Call { return C("Params", F(b...)) }, "Param"},
+		{"http-request-body-field", "http-endpoint", func(b ...Call) Call { return C("Body", F(b...)) }, "Attribute"},
+		{"http-response-header", "http-endpoint", func(b ...Call) Call { return C("Response", I(200), F(b...)) }, "Header"},
+		{"http-response-body-field", "http-response", func(b ...Call) Call { return C("Body", F(b...)) }, "Attribute"},
+		{"view-attribute", "resulttype", func(b ...Call) Call { return C("View", S("v2"), F(b...)) }, "Attribute"},
+		{"grpc-request-metadata", "grpc-endpoint", func(b ...Call) Call { return C("Metadata", F(b...)) }, "Attribute"},
+		{"grpc-request-message", "grpc-endpoint", func(b ...Call) Call { return C("Message", F(b...)) }, "Attribute"},
+		{"grpc-response-header", "grpc-response", func(b ...Call) Call { return C("Headers", F(b...)) }, "Attribute"},
+		{"grpc-response-trailer", "grpc-response", func(b ...Call) Call { return C("Trailers", F(b...)) }, "Attribute"},
+		{"grpc-response-message", "grpc-response", func(b ...Call) Call { return C("Message", F(b...)) }, "Attribute"},
+	} {
+		a, b, d := ent(l.entry, "a"), ent(l.entry, "b"), ent(l.entry, zz)
+		for _, body := range [][]Call{{d, a}, {a, d}, {a, d, b}} {
+			t = append(t, one(l.id+"-in-list", l.ctx, l.mk(body...)))
+		}
+	}
+
+	replaceable := map[string]bool{"Body": true, "MapParams": true, "Tag": true, "Message": true, "Metadata": true,
+		"Trailers": true, "Result": true}
+	for i := range t {
+		fn := t[i].call.Fn
+		switch {
+		case replaceable[fn]:
+		case fn == "Headers" && t[i].ctx == "grpc-response":
+		case fn == "Attribute" && t[i].ctx == "type": // attribute f can be redefined by a sibling
+		default:
+			t[i].strict = true
+		}
 	}
 	return t
 }
+
+// companionCtx: contexts that exist only for the dangling family borrow the companion calls
+// of the enumerated context they extend.
+var companionCtx = map[string]string{"method+auth": "method+http", "service+auth": "service", "api+auth": "api"}
 
 // familyDangling: level 1 = every template alone; level 2 = with one companion call before or
 // after it; level 3 = with two companion calls in every relative position. Companions are the
@@ -199,19 +334,23 @@ func danglingTemplates() []danglingTemplate {
 // contains that name.
 func familyDangling(sel *Selection, level int) []block {
 	var out []block
-	for _, tpl := range danglingTemplates() {
+	for ti, tpl := range danglingTemplates() {
 		tpl := tpl
-		key := fmt.Sprintf("dangling%d/%s/%s/%s", level, tpl.ctx, tpl.id, describe([]Call{tpl.call}))
+		key := fmt.Sprintf("dangling%d/%03d/%s/%s/%s", level, ti, tpl.ctx, tpl.id, describe(tpl.hole()))
 		if level == 1 {
 			out = append(out, block{Key: key, N: 1, at: func(int) *Program {
-				return &Program{Ctx: tpl.ctx, Hole: []Call{tpl.call}, Dangling: tpl.id}
+				return &Program{Ctx: tpl.ctx, Hole: tpl.hole(), Dangling: tpl.id, Strict: true}
 			}})
 			continue
 		}
 		if sel == nil {
 			continue
 		}
-		flat := flatten(sel.D3[tpl.ctx])
+		cctx := tpl.ctx
+		if c, ok := companionCtx[cctx]; ok {
+			cctx = c
+		}
+		flat := flatten(sel.D3[cctx])
 		t := len(flat)
 		if t == 0 {
 			continue
@@ -219,18 +358,18 @@ func familyDangling(sel *Selection, level int) []block {
 		k := level - 1 // companions
 		n := ipow(t, k) * level
 		out = append(out, block{Key: key, N: n, at: func(j int) *Program {
-			pos := j % level // position of the dangling call among the level calls
+			pos := j % level // position of the template among the level groups
 			r := j / level
 			comp := make([]Call, k)
 			for i := k - 1; i >= 0; i-- {
 				comp[i] = flat[r%t].call()
 				r /= t
 			}
-			calls := make([]Call, 0, level)
+			calls := make([]Call, 0, level+len(tpl.pre)+len(tpl.post))
 			calls = append(calls, comp[:pos]...)
-			calls = append(calls, tpl.call)
+			calls = append(calls, tpl.hole()...)
 			calls = append(calls, comp[pos:]...)
-			return &Program{Ctx: tpl.ctx, Hole: calls, Dangling: tpl.id}
+			return &Program{Ctx: tpl.ctx, Hole: calls, Dangling: tpl.id, Strict: tpl.strict}
 		}})
 	}
 	return out
@@ -358,6 +497,96 @@ func familyRec(level int) []block {
 	return out
 }
 
+// ---- recursive types reached through Extend / Reference ----
+
+// bodyAttrName is the attribute a recursive body call defines ("" if none).
+func bodyAttrName(c Call) string {
+	switch c.Fn {
+	case "Attribute", "OneOf":
+		return c.Args[0].S
+	case "Field":
+		return c.Args[1].S
+	}
+	return ""
+}
+
+type recPlace struct {
+	name string
+	mk   func(body []Call) []Call // top-level calls that put body (link + attributes) somewhere
+}
+
+var recPlaces = []recPlace{
+	{"type", func(body []Call) []Call {
+		return []Call{C("Type", S("r3"), F(body...)),
+			C("Service", S("s"), F(C("Method", S("m"), F(C("Payload", UT("r3")), C("Result", UT("r3")), C("HTTP", F(C("POST", S("/"))))))))}
+	}},
+	{"payload", func(body []Call) []Call {
+		return []Call{C("Service", S("s"), F(C("Method", S("m"), F(C("Payload", F(body...)), C("HTTP", F(C("POST", S("/"))))))))}
+	}},
+	{"result", func(body []Call) []Call {
+		return []Call{C("Service", S("s"), F(C("Method", S("m"), F(C("Result", F(body...)), C("HTTP", F(C("GET", S("/"))))))))}
+	}},
+}
+
+// familyRecRef: a self-recursive (level 1) or mutually recursive (level 2) type r1 is extended
+// or referenced (directly, or through a type rb that has an attribute c of type r1) from a
+// second type, a method payload or a method result, which re-declares the recursive
+// attribute under the same name: not at all, without a type (it inherits), with the type, or
+// without a type next to an unrelated attribute.
+func familyRecRef(level int) []block {
+	var out []block
+	for _, rt1 := range []bool{false, true} {
+		type def struct{ top []Call }
+		var defs []def
+		var names []string
+		if level == 1 {
+			for _, b := range recBodies("r1", "r1", rt1) {
+				defs = append(defs, def{[]Call{defType("r1", rt1, []Call{b})}})
+				names = append(names, bodyAttrName(b))
+			}
+		} else {
+			for _, b1 := range recBodies("r1", "r2", rt1) {
+				for _, b2 := range recBodies("r2", "r1", false) {
+					defs = append(defs, def{[]Call{defType("r1", rt1, []Call{b1}), defType("r2", false, []Call{b2})}})
+					names = append(names, bodyAttrName(b1))
+				}
+			}
+		}
+		for _, link := range []string{"Reference", "Extend"} {
+			for _, indirect := range []bool{false, true} {
+				for _, place := range recPlaces {
+					rt1, link, indirect, place := rt1, link, indirect, place
+					key := fmt.Sprintf("recref%d/rt=%v/%s/indirect=%v/%s", level, rt1, link, indirect, place.name)
+					const nattr = 4
+					out = append(out, block{Key: key, N: len(defs) * nattr, at: func(j int) *Program {
+						d, variant := defs[j/nattr], j%nattr
+						top := append([]Call{}, d.top...)
+						target, name := "r1", names[j/nattr]
+						if indirect {
+							top = append(top, C("Type", S("rb"), F(C("Attribute", S("c"), UT("r1")), C("Attribute", S("n"), DT("String")))))
+							target, name = "rb", "c"
+						}
+						if name == "" {
+							name = "f"
+						}
+						body := []Call{C(link, UT(target))}
+						switch variant {
+						case 1:
+							body = append(body, C("Attribute", S(name)))
+						case 2:
+							body = append(body, C("Attribute", S(name), UT("r1")))
+						case 3:
+							body = append(body, C("Attribute", S(name)), C("Attribute", S("z"), DT("String")))
+						}
+						return &Program{Top: append(top, place.mk(body)...)}
+					}})
+				}
+			}
+		}
+	}
+	return out
+}
+
 func familyByName(name string, sel *Selection) []block {
 	switch name {
 	case "d1":
@@ -376,6 +605,10 @@ func familyByName(name string, sel *Selection) []block {
 		return familyRec(1)
 	case "rec2":
 		return familyRec(2)
+	case "recref1":
+		return familyRecRef(1)
+	case "recref2":
+		return familyRecRef(2)
 	}
 	fatalf("unknown family %q", name)
 	return nil
